@@ -25,14 +25,14 @@ ENOTDIR == 20   EINVAL == 22   EROFS == 30   ENOTEMPTY == 39
 
 \* ------------------------------------------------------------------ 1. menu
 \* entries produced by the mount.Builder helpers (WithBind / WithTmpfs / WithProc[RW]) ...
-BuilderKinds == {"bdro", "bdrw", "bfro", "bfrw", "tmp", "procro", "procrw", "nest", "nestf", "noent", "bdrol"}
+BuilderKinds == {"bdro", "bdrw", "bfro", "bfrw", "tmp", "procro", "procrw", "nest", "nestf", "noent", "bdrol", "bdros"}
 \* ... and hand-written mount.Mount values (public struct, accepted by container.Builder.Mounts and, through
 \* Builder.WithMount(...).Build(), by the namespace runner) with flag combinations the helpers never produce.
 \* "Declared read-only" is the MS_RDONLY bit of the entry, whatever else is set.
 HandKinds == {"hbro", "hbrox", "hfro", "hbrw", "htro"}
 Kinds == BuilderKinds \cup HandKinds
 \* the menu used where the cube of the menu size matters (3-entry tables in the model checker)
-KindsCore == {"bdro", "bfrw", "tmp", "procro", "nest", "nestf", "noent", "bdrol", "hbro", "hbrox", "hfro", "hbrw", "htro"}
+KindsCore == {"bdros", "bdro", "bfrw", "tmp", "procro", "nest", "nestf", "noent", "bdrol", "hbro", "hbrox", "hfro", "hbrw", "htro"}
 
 BN == <<"b1", "b2", "b3">>      \* targets of directory binds
 FN == <<"f1", "f2", "f3">>      \* targets of file binds
@@ -40,6 +40,7 @@ NN == <<"n1", "n2", "n3">>      \* nested directory targets under "w"
 GN == <<"g1", "g2", "g3">>      \* nested file targets under "w"
 XN == <<"x1", "x2", "x3">>      \* targets of binds whose source does not exist
 KN == <<"k1", "k2", "k3">>      \* targets of binds from the nosuid,nodev,noexec file system
+VN == <<"v1", "v2", "v3">>      \* targets of binds from the file system with shared propagation
 HN == <<"h1", "h2", "h3">>      \* targets of hand-written directory binds
 EN == <<"e1", "e2", "e3">>      \* targets of hand-written file binds
 RN == <<"r1", "r2", "r3">>      \* targets of hand-written read-only tmpfs
@@ -47,8 +48,11 @@ DS == <<"d1", "d2", "d3">>      \* source directories
 SS == <<"s1", "s2", "s3">>      \* source files
 MS == <<"m1", "m2", "m3">>      \* missing sources
 LS == <<"l1", "l2", "l3">>      \* source directories on the "locked" file system
+PS == <<"p1", "p2", "p3">>      \* source directories on a host mount with SHARED propagation; the host mounts
+                                \* a file system on <source>/dyn once the sandbox has been set up
 
-DirSrc    == {"d1", "d2", "d3", "l1", "l2", "l3"}
+DirSrc    == {"d1", "d2", "d3", "l1", "l2", "l3", "p1", "p2", "p3"}
+SharedSrc == {"p1", "p2", "p3"}
 FileSrc   == {"s1", "s2", "s3"}
 LockedSrc == {"l1", "l2", "l3"}
 MissingSrc == {"m1", "m2", "m3"}
@@ -65,6 +69,8 @@ SrcDirContent == { [p |-> <<"inside">>, t |-> "f"], [p |-> <<"secret">>, t |-> "
 \*      "raw" = a mount.Mount literal with file-system type fst and exactly the flags fl
 B(api, tgt, src, ro) == [api |-> api, tgt |-> tgt, src |-> src, ro |-> ro, fst |-> "", fl |-> {}]
 H(tgt, src, fst, fl) == [api |-> "raw", tgt |-> tgt, src |-> src, ro |-> "RDONLY" \in fl, fst |-> fst, fl |-> fl]
+SrcContent(id) == IF id \in SharedSrc THEN SrcDirContent \cup { [p |-> <<"dyn">>, t |-> "d"] } ELSE SrcDirContent
+
 Entry(i, k) ==
   CASE k = "bdro"   -> B("bind",  <<BN[i]>>,      DS[i],   TRUE)
     [] k = "bdrw"   -> B("bind",  <<BN[i]>>,      DS[i],   FALSE)
@@ -77,6 +83,7 @@ Entry(i, k) ==
     [] k = "nestf"  -> B("bind",  <<"w", GN[i]>>, SS[i],   TRUE)
     [] k = "noent"  -> B("bind",  <<XN[i]>>,      MS[i],   TRUE)
     [] k = "bdrol"  -> B("bind",  <<KN[i]>>,      LS[i],   TRUE)
+    [] k = "bdros"  -> B("bind",  <<VN[i]>>,      PS[i],   TRUE)
     \* hand-written: plain read-only bind; read-only bind with extra restrictions but without
     \* NOSUID/PRIVATE; read-only file bind, non-recursive; writable bind with restrictions; read-only tmpfs
     [] k = "hbro"   -> H(<<HN[i]>>, DS[i],   "",      {"BIND", "RDONLY"})
@@ -138,8 +145,12 @@ ContOptsMain == { <<"def", "def", TRUE>>, <<"def", "def", FALSE>>, <<"cus", "cus
 \* ------------------------------------------------------------------ environment facts
 \* env = [proc   : set of [p, t]  entries of a procfs root that matter for masking (host fact),
 \*        srcfl  : statfs flag names of the file system holding the ordinary sources,
-\*        lockfl : statfs flag names of the "locked" file system]
-HostFl(src, env) == IF src \in LockedSrc THEN env.lockfl ELSE IF src = "devnull" THEN {} ELSE env.srcfl
+\*        lockfl : statfs flag names of the "locked" file system,
+\*        sharefl: statfs flag names of the file system holding the shared-propagation sources,
+\*        shared : that file system really has shared propagation on the host side (all other host
+\*                 mounts are private: the driver runs under unshare -m --propagation private)]
+HostFl(src, env) == IF src \in LockedSrc THEN env.lockfl ELSE IF src \in SharedSrc THEN env.sharefl
+                    ELSE IF src = "devnull" THEN {} ELSE env.srcfl
 MntFlagNames == {"RDONLY", "NOSUID", "NODEV", "NOEXEC"}
 \* statfs bits that have the same value as the MS_ flag: ST_RELATIME (4096) is not MS_RELATIME
 StatfsKeep == {"NOSUID", "NODEV", "NOEXEC", "NOATIME", "NODIRATIME"}
@@ -202,7 +213,8 @@ Prog(cfg, env) ==
              Op("mountroot", "tmpfs", <<>>, "tmpfs", {}, {OK}),
              Op("chdir", "", <<>>, "", {}, {OK}) >>
           \o ents \o PivotOps \o << RootRoOp >>
-     ELSE << Op("mountroot", "tmpfs", <<>>, "tmpfs", {}, {OK}),
+     ELSE << Op("private", "", <<>>, "", {"REC", "PRIVATE"}, {OK}),
+             Op("mountroot", "tmpfs", <<>>, "tmpfs", {}, {OK}),
              Op("chdir", "", <<>>, "", {}, {OK}) >>
           \o ents \o PivotOps
           \o Concat([i \in 1..Len(Links(cfg)) |-> LinkOps(Links(cfg)[i])])
@@ -212,10 +224,14 @@ Prog(cfg, env) ==
 \* ------------------------------------------------------------------ 3. kernel model
 \* st = [mt    : sequence of mounts in creation order,
 \*              [at, fs ("tmpfs"|"proc"|"bind"|"host"), id (file-system instance / source id),
-\*               fl (subset of MntFlagNames), atime ("rel"|"no"), sbro, lock (flags a remount may not clear)]
+\*               fl (subset of MntFlagNames), atime ("rel"|"no"), sbro, lock (flags a remount may not clear),
+\*               prop ("private"|"slave": a slave receives every mount the host makes below its source)]
 \*       files : set of [fs, p, t] objects created in tmpfs instances (t: d f l)
 \*       host  : "under" (new root is a directory of the host tree) | "old" (host tree at /old_root) | "gone"
-\*       cwd   : "host" | "new",   priv : root propagation made private
+\*       cwd   : "host" | "new",
+\*       priv  : the inherited tree was made MS_REC|MS_PRIVATE.  Cloning into a new user+mount namespace
+\*               turns every shared host mount into a slave; a bind mount is a clone of its source mount
+\*               and inherits that (the MS_PRIVATE bit in a bind's flags is ignored by mount(2))
 \*       nfs   : number of file-system instances created,   last : errno of the last syscall
 \*       fail  : a syscall ended with a result the code treats as fatal
 \*       mk    : what maskPath still has to do for the current path: "done" | "stat" | "tmpfs" | "empty"
@@ -240,7 +256,7 @@ Hidden(mt, j) == \E l \in (j + 1)..Len(mt) : IsPrefix(mt[l].at, mt[j].at)
 MRootType(m) == IF m.fs = "bind" THEN (IF m.id = "empty" THEN "f" ELSE SrcType(m.id)) ELSE "d"
 \* objects of the file system behind a mount; procfs content matters only for masking
 FsContent(st, m, env) ==
-  CASE m.fs = "bind"  -> IF m.id \in DirSrc THEN SrcDirContent ELSE {}
+  CASE m.fs = "bind"  -> IF m.id \in DirSrc THEN SrcContent(m.id) ELSE {}
     [] m.fs = "tmpfs" -> { [p |-> x.p, t |-> x.t] : x \in { y \in st.files : y.fs = m.id } }
     [] m.fs = "proc"  -> env.proc
     [] m.fs = "host"  -> { [p |-> <<"HOST">>, t |-> "d"] }
@@ -271,8 +287,8 @@ ApplyCreate(st, p, ty, env) ==
      ELSE [st EXCEPT !.files = @ \cup {[fs |-> st.mt[par.m].id, p |-> Rel(p, st.mt[par.m].at), t |-> ty]},
                      !.last = OK]
 
-NewMount(at, fs, id, fl, atime, sbro, lock) ==
-  [at |-> at, fs |-> fs, id |-> id, fl |-> fl, atime |-> atime, sbro |-> sbro, lock |-> lock]
+NewMount(at, fs, id, fl, atime, sbro, lock, prop) ==
+  [at |-> at, fs |-> fs, id |-> id, fl |-> fl, atime |-> atime, sbro |-> sbro, lock |-> lock, prop |-> prop]
 
 \* mount(2) of a new file system instance (tmpfs, proc)
 ApplyMountNew(st, op, env) ==
@@ -281,7 +297,7 @@ ApplyMountNew(st, op, env) ==
      ELSE IF tg.t # "d" THEN Res(st, ENOTDIR)
      ELSE [st EXCEPT !.mt = Append(@, NewMount(op.tgt, op.fst, FsIds[st.nfs + 1], op.fl \cap MntFlagNames,
                                             IF "NOATIME" \in op.fl THEN "no" ELSE "rel",
-                                            "RDONLY" \in op.fl, {})),
+                                            "RDONLY" \in op.fl, {}, "private")),
                      !.nfs = @ + 1, !.last = OK]
 
 \* mount(2) MS_BIND of a host source: the new mount takes the flags of the source's mount (the flag
@@ -292,7 +308,8 @@ ApplyMountBind(st, op, env) ==
       inh == HostFl(op.src, env) \cap MntFlagNames
   IN IF sT = "none" \/ tg.t = "none" THEN Res(st, ENOENT)
      ELSE IF (sT = "d") # (tg.t = "d") THEN Res(st, ENOTDIR)
-     ELSE [st EXCEPT !.mt = Append(@, NewMount(op.tgt, "bind", op.src, inh, "rel", FALSE, inh)),
+     ELSE [st EXCEPT !.mt = Append(@, NewMount(op.tgt, "bind", op.src, inh, "rel", FALSE, inh,
+                                            IF op.src \in SharedSrc /\ env.shared /\ ~st.priv THEN "slave" ELSE "private")),
                      !.last = OK]
 
 \* mount(src, p, "", MS_BIND) where the source is a path inside the container (/dev/null, /.mask):
@@ -303,7 +320,7 @@ ApplyBindNs(st, op, sp, id, env) ==
   IN IF sr.t = "none" \/ tg.t = "none" THEN Res(st, ENOENT)
      ELSE IF (sr.t = "d") # (tg.t = "d") THEN Res(st, ENOTDIR)
      ELSE LET sm == st.mt[sr.m]
-          IN [st EXCEPT !.mt = Append(@, NewMount(op.tgt, "bind", id, sm.fl, sm.atime, FALSE, sm.lock)),
+          IN [st EXCEPT !.mt = Append(@, NewMount(op.tgt, "bind", id, sm.fl, sm.atime, FALSE, sm.lock, sm.prop)),
                         !.last = OK]
 ApplyMaskBind(st, op, env) ==
   LET s2 == ApplyBindNs(st, op, <<"dev", "null">>, "devnull", env)
@@ -342,7 +359,7 @@ ApplyPivot(st, op, env) ==
   IN IF st.host # "under" \/ st.cwd # "new" THEN Res(st, EINVAL)
      ELSE IF tg.t = "none" THEN Res(st, ENOENT)
      ELSE IF tg.t # "d" THEN Res(st, ENOTDIR)
-     ELSE [st EXCEPT !.mt = Append(@, NewMount(op.tgt, "host", "host", {}, "rel", FALSE, {})),
+     ELSE [st EXCEPT !.mt = Append(@, NewMount(op.tgt, "host", "host", {}, "rel", FALSE, {}, "private")),
                      !.host = "old", !.last = OK]
 
 \* umount2(p, MNT_DETACH): the mount at p and everything mounted below it leave the namespace
@@ -368,8 +385,8 @@ ApplyRmdir(st, op, env) ==
              ELSE [st EXCEPT !.files = { x \in @ : ~(x.fs = m.id /\ x.p = rel) }, !.last = OK]
 
 ApplyRaw(st, op, env) ==
-  CASE op.k = "private"   -> [st EXCEPT !.priv = TRUE, !.last = OK]
-    [] op.k = "mountroot" -> [st EXCEPT !.mt = << NewMount(<<>>, "tmpfs", "root", {}, "rel", FALSE, {}) >>,
+  CASE op.k = "private"   -> [st EXCEPT !.priv = "PRIVATE" \in op.fl, !.last = OK]
+    [] op.k = "mountroot" -> [st EXCEPT !.mt = << NewMount(<<>>, "tmpfs", "root", {}, "rel", FALSE, {}, "private") >>,
                                         !.last = OK]
     [] op.k = "chdir"     -> [st EXCEPT !.cwd = "new", !.last = OK]
     [] op.k = "mkdir"     -> ApplyCreate(st, op.tgt, "d", env)
@@ -403,6 +420,17 @@ OpKinds == {"private", "mountroot", "chdir", "mkdir", "mknod", "mount", "statfs"
             "rmdir", "symlink", "maskbind", "maskstat", "masktmp", "maskmk", "maskbinde", "maskro", "maskrm"}
 
 Final(cfg, env) == FoldLeft(LAMBDA s, op : Apply(s, op, env), St0, Prog(cfg, env))
+
+\* The environment, while the program runs: the host mounts a tmpfs with a marker file on <source>/dyn of
+\* every shared-propagation source.  Every mount of the sandbox that is still a slave of that source's
+\* mount receives a copy at <its mount point>/dyn (writable, whatever the bind says).
+HostMounted(st, env) ==
+  LET recv == SelectSeq([j \in DOMAIN st.mt |-> st.mt[j]],
+                        LAMBDA m : m.fs = "bind" /\ m.id \in SharedSrc /\ m.prop # "private")
+      news == [j \in DOMAIN recv |-> NewMount(recv[j].at \o <<"dyn">>, "tmpfs", "dynfs", {}, "rel", FALSE, {}, "slave")]
+  IN IF ~env.shared \/ recv = <<>> THEN st
+     ELSE [st EXCEPT !.mt = @ \o news,
+                     !.files = @ \cup { [fs |-> "dynfs", p |-> <<"hostmarker">>, t |-> "f"] }]
 
 \* ------------------------------------------------------------------ 4. property layer: Reach
 \* every object a program can name below "/" (procfs is never descended into)
@@ -442,10 +470,12 @@ DeclaredObject(cfg, x) ==
   IN \/ \E i \in DOMAIN E : IsPrefix(x.p, E[i].tgt)                             \* mount point or a directory leading to it
      \/ \E i \in DOMAIN E : /\ IsBind(E[i]) /\ E[i].src \in DirSrc         \* content of a declared bind source
                             /\ IsPrefix(E[i].tgt, x.p)
-                            /\ \E c \in SrcDirContent : c.p = Rel(x.p, E[i].tgt)
+                            /\ \E c \in SrcContent(E[i].src) : c.p = Rel(x.p, E[i].tgt)
      \/ \E i \in DOMAIN Links(cfg) : IsPrefix(x.p, Links(cfg)[i].lp)            \* symlink or a directory leading to it
 
 \* the confinement property of a final namespace state, as the property sentence states it
+\* no mount of the sandbox may receive propagation from the host, at any time of the program's life
+AllPrivate(st)          == \A j \in DOMAIN st.mt : st.mt[j].prop = "private"
 RootReadOnly(st, env)   == ~Writable(st, <<>>, env)
 OldRootGone(st, env)    == ~HostReachable(st) /\ Lookup(st, <<"old_root">>, env).t = "none"
 OnlyConfigured(cfg, st, env) ==
